@@ -199,9 +199,9 @@ fn length_strategy() -> BoxedStrategy<f64> {
 fn param_strategy(grid_offsets: bool) -> BoxedStrategy<ParamSpec> {
     let off = if grid_offsets {
         // degrees values (variants) or radians on the printed 1e-4 degree grid (round trip)
-        prop_oneof![3 => Just(0.0), 2 => any::<u16>().prop_map(|i| [90.0, -90.0, 180.0, -180.0, 45.0][pick_idx(i, 5)]), 3 => (-1_800_000i32..1_800_000).prop_map(|m| m as f64 / 10000.0), 1 => -180.0..180.0f64].boxed()
+        prop_oneof![3 => Just(0.0), 2 => any::<u16>().prop_map(|i| [90.0, -90.0, 180.0, -180.0, 45.0][pick_idx(i, 5)]), 3 => (-1_800_000i32..1_800_000).prop_map(|m| m as f64 / 10000.0), 2 => (-360i32..=360).prop_map(|d| d as f64), 1 => -180.0..180.0f64].boxed()
     } else {
-        prop_oneof![3 => Just(0.0), 3 => (-1_800_000i32..1_800_000).prop_map(|m| (m as f64 / 10000.0).to_radians()), 3 => -3.2..3.2f64].boxed()
+        prop_oneof![3 => Just(0.0), 3 => (-1_800_000i32..1_800_000).prop_map(|m| (m as f64 / 10000.0).to_radians()), 3 => (-360i32..=360).prop_map(|d| (d as f64).to_radians()), 3 => -3.2..3.2f64].boxed()
     };
     (prop::array::uniform7(length_strategy()), prop::array::uniform6(off), 0u8..64, prop_oneof![3 => Just(6i8), 2 => Just(5i8)], 0u8..3)
         .prop_map(|(lengths, offsets, bits, dof, s6)| {
@@ -293,7 +293,7 @@ impl Property for C19 {
         "C19"
     }
     fn rule(&self) -> String {
-        "round trips: parameter sets with integral / decimal / arbitrary / extreme finite lengths, offsets on the printed 1e-4 degree grid and arbitrary, signs +-1 (0 on J6), dof 5/6, through to_yaml -> file -> from_yaml_file; \
+        "round trips: parameter sets with integral / decimal / arbitrary / extreme finite lengths, offsets on the printed 1e-4 degree grid, whole degrees -360..360 (as the radians of the integer) and arbitrary, signs +-1 (0 on J6), dof 5/6, through to_yaml -> file -> from_yaml_file; \
          variants: grammar-based renderer of the documented format (integer or real literals, plain radians or deg(x) with/without inner spaces, 5 or 6 array entries, dof at top level / nested / absent, 2/4-space indent, comments, blank lines, key order); \
          no-panic: token/byte-level edits of valid documents and arbitrary byte strings (plus the libFuzzer target yaml_bytes in the thorough tier). \
          Non-trivial: round trips with >= 1 integral-valued length or dof 5; variants using >= 2 non-default syntax choices; every mutated/arbitrary document."
